@@ -1,5 +1,6 @@
 -- all property theorem modules
 import HbsLms.Props.C01
+import HbsLms.Props.C02
 import HbsLms.Props.C03
 import HbsLms.Props.C04
 import HbsLms.Props.C05
